@@ -283,6 +283,12 @@ func (w *c14World) apply(op c14Op) (skip bool, err error) {
 			delete(w.jobs, op.Job)
 			return false, w.jw.Sched.DeleteJob(id)
 		}
+	case "setns":
+		// the public namespaces of a dataset are changed by writing its meta-entity into core.Dataset
+		if !exists {
+			return true, nil
+		}
+		return false, w.jw.W.VSetPublicNamespaces(h.DsName(op.DS), []string{fmt.Sprintf("http://pub%d.example/", op.N), server.VNamespace})
 	case "lookupns":
 		// a reader asks for an entity by full URI in a namespace nobody has mentioned yet
 		_, err := w.jw.W.Store.GetEntity(fmt.Sprintf("http://c14-lookup-%d.%s/x", op.N, h.Tag), nil, true)
@@ -728,6 +734,8 @@ func c14Alphabet(wide bool) []c14Op {
 		{K: "create", DS: "P", N: 1},
 		{K: "rename", DS: "A", To: "A2"},
 		{K: "delete", DS: "B"},
+		{K: "delete", DS: "P"},
+		{K: "setns", DS: "P", N: 2},
 		{K: "lookupns", N: 1},
 		{K: "addjob", Job: "j1"},
 		{K: "pause", Job: "j1"},
@@ -760,6 +768,7 @@ func c14Alphabet(wide bool) []c14Op {
 			c14Op{K: "setacl", C: "c1", N: 1},
 			c14Op{K: "delacl", C: "c2"},
 			c14Op{K: "delprov", C: "p1"},
+			c14Op{K: "setns", DS: "A", N: 1},
 			c14Op{K: "addprov", C: "P2"},
 			c14Op{K: "delprov", C: "P2"},
 			c14Op{K: "delprov", C: "p2"},
@@ -803,7 +812,7 @@ func init() {
 		}
 	})
 	engine.RegisterCheck("C14", func(r *engine.Run) {
-		r.Rule = "SEQ: every history up to the stated depth over the alphabet {restart, 3 data writes incl. a two-dataset transaction, a lookup by full URI in an unmentioned namespace, create plain / with public namespaces, rename, delete, add job, pause, run, register client, set ACL, delete ACL, add login provider} (wide alphabet adds proxy dataset, re-create, paused and fullsync jobs, a job with an on-change trigger (real event bus: registered topics and per-subscriber topic sets are part of the observation), unpause, reset, delete job, un-register, second client/ACL, delete provider) on a hub of its own (store, dataset manager, runner, scheduler, security core, token providers); after every history (a) data read APIs vs the reference model that ignores restarts, (b) full observation through every read API before vs after a stop/start, (c) raw-key invariants after the restart and after a probe write; states deduplicated by canonical raw scan + non-entity observation"
+		r.Rule = "SEQ: every history up to the stated depth over the alphabet {restart, 3 data writes incl. a two-dataset transaction, a lookup by full URI in an unmentioned namespace, create plain / with public namespaces, rename, delete, add job, pause, run, register client, set ACL, delete ACL, add login provider} (also delete of the dataset with public namespaces and a change of its public namespaces through its meta-entity in core.Dataset; wide alphabet adds proxy dataset, login providers with mixed-case names, re-create, paused and fullsync jobs, a job with an on-change trigger (real event bus: registered topics and per-subscriber topic sets are part of the observation), unpause, reset, delete job, un-register, second client/ACL, delete provider) on a hub of its own (store, dataset manager, runner, scheduler, security core, token providers); after every history (a) data read APIs vs the reference model that ignores restarts, (b) full observation through every read API before vs after a stop/start, (c) raw-key invariants after the restart and after a probe write; states deduplicated by canonical raw scan + non-entity observation"
 		r.Assumptions = []string{"quiescent points only: no full sync in progress, no running job at the moment of the restart", "Restart = Runner.Stop, Store.Close, then NewStore, NewDsManager, NewRunner, NewScheduler, NewServiceCore, NewProviderManager/NewTokenProviders on the same directories", "node key pre-generated (2048 bit)", "searches c14-app*: the hub is a DatahubInstance built by app.go's NewDatahubInstance (real wiring, real web service object, no listener), Restart = DatahubInstance.Stop then NewDatahubInstance on the same configuration"}
 		if err := c16PrepareKeys(); err != nil {
 			r.Cap("cannot prepare keys: " + err.Error())
